@@ -43,6 +43,7 @@ structure JC (ctx : Ctx) (q : Query) (G : MG Name) (c : List Var) : Prop where
   okN : ∀ v, (v ∈ regularNodes G ∨ v ∈ ctx.ign) → ctx.S.okN (some (popVar q.domain)) [] v
   cover : ∀ v ∈ regularNodes G, v ∈ vnames c
   within : ∀ n ∈ vnames c, n ∈ regularNodes G ∨ n ∈ ctx.ign
+  ignIn : ∀ z ∈ ctx.ign, z ∈ vnames c
   plain : ∀ v ∈ c, v.ivs = [] ∧ v.star = none ∧ v.isIv = false
   marg : ∀ S : List Name, (∀ n ∈ S, n ∈ regularNodes G ∨ n ∈ ctx.ign) → ∀ σ,
     ctx.S.Φ (some (popVar q.domain)) [] S σ =
@@ -389,7 +390,10 @@ theorem sound_line2 {ctx : Ctx} {Mb : Nat} {q q' : Query} {G : MG Name} {anc : L
           exact List.mem_map.2 ⟨Var.plain n, (mem_plainVars _ _).2 ⟨n, mem_diff'.2 ⟨h1, h2⟩, rfl⟩, rfl⟩
         have jc' : JC ctx q' (G.subgraph (nsort anc)) c' := by
           refine ⟨hdom ▸ jc.okW, fun v hv => hdom ▸ jc.okN v (hv.elim (fun a => Or.inl ((hmem v).1 a).1) Or.inr), ?_, ?_,
-            hplain', ?_⟩
+            ?_, hplain', ?_⟩
+          pick_goal 3
+          · intro z hz
+            exact (hnames z).2 ⟨jc.ignIn z hz, fun hr => h.ign z hz (hR_notanc z hr).1⟩
           · intro v hv
             obtain ⟨hv1, hv2⟩ := (hmem v).1 hv
             exact (hnames v).2 ⟨jc.cover v hv1, fun hr => (hR_notanc v hr).2 hv2⟩
